@@ -37,6 +37,7 @@ class St:
     pow_uf_for = set() # exponents (Fractions) that are always uninterpreted, whatever pow_mode says
     fresh = 0
     notes = set()
+    conc_trig_float = False  # cos/sin of a concrete angle evaluated in floating point (as the code itself does)
     snap_literals = False  # read float literals such as 0.4 at their decimal value 2/5
     absorb_eps = Fr(3, 2 * 10 ** 10)   # |c| <= eps added to a symbolic value is absorbed (0 disables)
 
@@ -57,6 +58,7 @@ class St:
         cls.notes = set()
         cls.absorb_eps = Fr(3, 2 * 10 ** 10)
         cls.snap_literals = False
+        cls.conc_trig_float = False
 
 
 def conc(x):
@@ -733,6 +735,9 @@ def sym_exp(x):
 def unit_pair(theta):
     """(cos theta, sin theta) for a value theta; one variable pair per canonical |theta|:
     theta and -theta share a pair (conjugated), so exp(i t) * exp(-i t) folds with c^2+s^2 = 1."""
+    if conc(theta) and St.conc_trig_float:
+        St.float_evals += 1
+        return Sym(math.cos(theta), math.sin(theta))
     if conc(theta):
         neg = theta < 0
         arg = z(-theta if neg else theta)
@@ -1045,6 +1050,7 @@ class Explorer:
             self.solver = z3.Solver()
             self.solver.set("timeout", self.timeout_ms)
             self.solver.add(self.pre)
+            self._defs_added = set()
             St.explorer = self
             exc = None
             out = None
@@ -1069,12 +1075,21 @@ class Explorer:
         self.n_solver += 1
         return r
 
+    def _add_defs(self, t):
+        """defining axioms (sqrt, powers, unit pairs, facts) of the variables in t become part of the path solver"""
+        for a in axioms_for([t]):
+            i = a.get_id()
+            if i not in self._defs_added:
+                self._defs_added.add(i)
+                self.solver.add(a)
+
     def branch(self, cond):
         cond = z3.simplify(cond)
         if z3.is_true(cond):
             return True
         if z3.is_false(cond):
             return False
+        self._add_defs(cond)
         if self.pos < len(self.decisions):
             d = self.decisions[self.pos]
             if self.pos < getattr(self, "forced", 0):
@@ -1107,6 +1122,7 @@ class Explorer:
 
     def choose_int(self, t):
         """fork on the integer value of term t"""
+        self._add_defs(t)
         lo = None
         while True:
             if self.pos < len(self.decisions):
@@ -1122,15 +1138,18 @@ class Explorer:
             # new decision: enumerate all feasible values, follow the first, schedule the rest
             vals = []
             self.solver.push()
+            St.fresh += 1
+            kv = z3.Int("ci!%d" % St.fresh)
+            self.solver.add(kv == t)
             while len(vals) < 64:
                 r = self._check()
                 if r != z3.sat:
                     if r == z3.unknown:
                         self.inconclusive += 1
                     break
-                v = self.solver.model().eval(t, model_completion=True).as_long()
+                v = self.solver.model().eval(kv, model_completion=True).as_long()
                 vals.append(v)
-                self.solver.add(t != v)
+                self.solver.add(kv != v)
             self.solver.pop()
             if not vals:
                 raise PathAbort()
